@@ -101,7 +101,7 @@ func runC08(x *Ctx) {
 				rs := v.Results()
 				dec, _ := paths.CallOf(rs[0])
 				cidc, _ := paths.CallOf(rs[1])
-				if dec == nil || dec.String() != x.call(pk+".FromDagCbor", "arg0") ||
+				if dec == nil || !(dec.String() == x.call(pk+".FromDagCbor", "arg0") || cborDecodeOf(rs[0], pk, "arg0", false)) ||
 					cidc == nil || cidc.Name != envPkg+"CIDFromBytes" || cidc.Args[0].String() != "arg0" {
 					ok = false
 					detail += fmt.Sprintf("returns %s, %s\n", rs[0], rs[1])
@@ -123,7 +123,7 @@ func runC08(x *Ctx) {
 				rs := v.Results()
 				dec, _ := paths.CallOf(rs[0])
 				cidc, _ := paths.CallOf(rs[1])
-				if dec == nil || dec.String() != x.call(pk+".FromDagCborReader", cr) ||
+				if dec == nil || !(dec.String() == x.call(pk+".FromDagCborReader", cr) || cborDecodeOf(rs[0], pk, cr, true)) ||
 					cidc == nil || cidc.Name != "(*"+envPkg+"CIDReader).CID" || cidc.Args[0].String() != cr {
 					ok = false
 					detail += fmt.Sprintf("returns %s, %s\n", rs[0], rs[1])
@@ -149,8 +149,13 @@ func runC08(x *Ctx) {
 			ok := len(sel) > 0
 			for _, v := range sel {
 				rs := v.Results()
-				data := x.call(tok+"ToDagCbor", "recv", "arg0") + "#0"
-				if rs[0].String() != data || rs[1].String() != "call["+envPkg+"CIDFromBytes]("+data+")#0" {
+				// the bytes: the token's DAG-CBOR encoding signed with the key given (ToDagCbor, or Encode with the
+				// DAG-CBOR codec); the CID: CIDFromBytes of exactly those bytes
+				data := rs[0].String()
+				dct, _ := paths.CallOf(rs[0])
+				okData := dct != nil && strings.HasSuffix(data, "#0") && (data == x.call(tok+"ToDagCbor", "recv", "arg0")+"#0" ||
+					dct.Name == tok+"Encode" && len(dct.Args) == 3 && dct.Args[0].String() == "recv" && dct.Args[1].String() == "arg0" && strings.Contains(dct.Args[2].String(), "codec/dagcbor.Encode"))
+				if !okData || rs[1].String() != "call["+envPkg+"CIDFromBytes]("+data+")#0" {
 					ok = false
 				}
 			}
@@ -165,7 +170,9 @@ func runC08(x *Ctx) {
 				if rs[0].String() != x.call("(*"+envPkg+"CIDWriter).CID", cw)+"#0" {
 					ok = false
 				}
-				if !v.HasFact(eqs(x.call(tok+"ToDagCborWriter", "recv", cw, "arg1"), "const(nil)"), true) {
+				enc1 := eqs(x.call(tok+"ToDagCborWriter", "recv", cw, "arg1"), "const(nil)")
+				enc2 := eqs("call["+tok+"EncodeWriter](recv,"+cw+",arg1,conv[github.com/ipld/go-ipld-prime/codec.Encoder](func(github.com/ipld/go-ipld-prime/codec/dagcbor.Encode)))", "const(nil)")
+				if !v.HasFact(enc1, true) && !v.HasFact(enc2, true) {
 					ok = false
 				}
 			}
@@ -362,4 +369,55 @@ func packageCodecs(x *Ctx, rule string, min int, pkgs ...string) {
 		}
 	}
 	x.C.Obl(rule, "package-codecs:"+strings.Join(pkgs, ","), "-", fmt.Sprintf("all %d codec values handed to go-ipld-prime are the package functions dagcbor / dagjson Decode / Encode with default options", n), bad == "" && n >= min, bad)
+}
+
+// streamDecodes tells whether the term contains a DAG-CBOR streaming decode of exactly the reader src.
+func streamDecodes(t *paths.Term, src string) bool {
+	found := false
+	t.Walk(func(s *paths.Term) {
+		if s.Op == "call" && strings.HasSuffix(s.Name, "go-ipld-prime.DecodeStreaming") && len(s.Args) >= 2 && s.Args[0].String() == src && strings.Contains(s.Args[1].String(), "codec/dagcbor.Decode") {
+			found = true
+		}
+	})
+	return found
+}
+
+// bufferDecodes tells whether the term contains a DAG-CBOR decode of exactly the byte slice src.
+func bufferDecodes(t *paths.Term, src string) bool {
+	found := false
+	t.Walk(func(s *paths.Term) {
+		if s.Op == "call" && strings.HasSuffix(s.Name, "go-ipld-prime.Decode") && len(s.Args) >= 2 && s.Args[0].String() == src && strings.Contains(s.Args[1].String(), "codec/dagcbor.Decode") {
+			found = true
+		}
+	})
+	return found
+}
+
+// cborDecodeOf tells whether a token-valued term is a DAG-CBOR decode of exactly src through one of the decoding
+// entry points of package pk (the typed From* functions, Decode / DecodeReader with the DAG-CBOR codec, the
+// envelope decoder of pk's payload model, go-ipld-prime's Decode / DecodeStreaming with dagcbor.Decode).
+func cborDecodeOf(t *paths.Term, pk, src string, stream bool) bool {
+	fn, gen := "FromDagCbor", "Decode"
+	if stream {
+		fn, gen = "FromDagCborReader", "DecodeReader"
+	}
+	if decodesWith(t, pk, fn, src) {
+		return true
+	}
+	found := false
+	t.Walk(func(s *paths.Term) {
+		if s.Op != "call" || len(s.Args) < 2 || s.Args[0] == nil || s.Args[0].String() != src || !strings.Contains(s.Args[1].String(), "codec/dagcbor.Decode") {
+			return
+		}
+		if s.Name == pk+"."+gen || strings.HasPrefix(s.Name, "token/internal/envelope."+gen+"[") {
+			found = true
+		}
+	})
+	if found {
+		return true
+	}
+	if stream {
+		return streamDecodes(t, src)
+	}
+	return bufferDecodes(t, src)
 }
